@@ -3612,6 +3612,7 @@ class ConnectiveDefMacro(Macro):
                 o1, o2 = rhs.arg.args # ~p1 --> p3
                 if q1 == p1 and o1 == Not(p1) and p2 == q2 and o2 == p3:
                     return Thm(goal)
+            raise VeriTException("connective_def", "can't match ite p q r <--> (p --> q) /\\ (~p --> r)")
         elif lhs.is_exists() and rhs.is_not() and rhs.arg.is_forall():
             l_var, l_body = lhs.strip_exists()
             r_var, r_body = rhs.arg.strip_forall()
